@@ -699,6 +699,7 @@ func (n *Neutral) unparen(t *rapid.T, f *File) (string, EditDesc, bool) {
 		return "", EditDesc{}, false
 	}
 	var sites [][2]int
+	byFam := map[int][][2]int{}
 	for i, tk := range f.Toks {
 		if tk.Kind != Punct || tk.Text != "(" || tk.Tmpl != 0 || f.Info[i].InAttr || !f.RValue(i) {
 			continue
@@ -753,11 +754,20 @@ func (n *Neutral) unparen(t *rapid.T, f *File) (string, EditDesc, bool) {
 		}
 		if ok {
 			sites = append(sites, [2]int{i, j})
+			byFam[f1] = append(byFam[f1], [2]int{i, j})
 		}
 	}
 	if len(sites) == 0 {
 		return "", EditDesc{}, false
 	}
+	// every operator family gets the same share, however rare its chains are
+	var fams []int
+	for _, fm := range []int{5, 4, 31, 32, 33, 21, 22} {
+		if len(byFam[fm]) > 0 {
+			fams = append(fams, fm)
+		}
+	}
+	sites = byFam[fams[rapid.IntRange(0, len(fams)-1).Draw(t, "family")]]
 	st := sites[rapid.IntRange(0, len(sites)-1).Draw(t, "site")]
 	i, j := st[0], st[1]
 	out := f.Src[:f.Toks[i].Off] + " " + f.Src[f.Toks[i].End:f.Toks[j].Off] + " " + f.Src[f.Toks[j].End:]
